@@ -213,6 +213,30 @@ def handle (inp out : Sexp) : CaseResult :=
                   (if same then [] else ["layout-mismatch"]) ++ (if ren then [] else ["not-renderable"]) ++
                   (if canon then [] else ["canonical-relex-differs"]),
           detail := s!"text={repr text} renderable={ren} same={same} canon={canon} impl={out}" }
+  | .list [.atom "rerender", .str text] =>
+    -- the harness lexed `text` with the real lexer, laid the tokens out canonically with its Rust mirror of
+    -- `QV.Render.render` and lexed that again with the real lexer
+    match QV.Lex.lex text.toList, out with
+    | none, .list [.atom "err"] =>
+      { agree := true, specOk := true, nontrivial := false, tags := ["rerender", "lex-err"], detail := "" }
+    | some ts, .list [.atom "rendered", .str r, back] =>
+      -- float spellings are the harness's (`{:?}`): read them off its text
+      match walkLayout ts r.toList [] [] with
+      | none => { agree := false, specOk := false, nontrivial := true, tags := ["rerender", "not-a-layout"],
+                  detail := s!"canonical text is not a layout of the tokens: r={repr r} text={repr text}" }
+      | some (_, tbl) =>
+        let st : QV.Render.Style := ⟨fun b => (tbl.lookup b).getD [], true⟩
+        let mine := QV.Render.render st ts
+        let sameText := mine == r.toList
+        let realBack := back == QV.LexWire.lexOutSexp (some ts)      -- REAL lexer on the canonical layout
+        let modelBack := QV.Lex.lex r.toList == some ts
+        let ok := QV.Render.allTokOk ts
+        -- comments are outside the theorem (a comment swallows the rest of its line)
+        { agree := sameText && (modelBack || !ok), specOk := realBack || !ok, nontrivial := ok && ts.length > 1,
+          tags := ["rerender", if ok then "all-tokOk" else "has-not-tokOk", s!"tokens{min (ts.length / 10) 10}x10"],
+          detail := s!"text={repr text} rust-render={repr r} lean-render={repr (String.ofList mine)} real-relex={back}" }
+    | m, _ => { agree := false, specOk := true, nontrivial := false, tags := ["rerender", "shape"],
+                detail := s!"model lex {QV.LexWire.lexOutSexp m} vs impl {out}" }
   | _ => .bad s!"undecodable input {inp}"
 
 end QV.C06
